@@ -28,7 +28,7 @@ for _g in _reg_C11.GROUPS:
         _h = _copy.deepcopy(_g); _h.pop('prop', None); _h['focus'] = ['^CBR', 'never reports more bytes', 'no output space']; _h['what'] = 'CBR size fixed by opus_encode_native: round(bitrate x duration / 8) clipped; OPUS_BITRATE_MAX fills the buffer; returned length within the buffer'
         GROUPS.append(_h)
 
-for _mt, _mtn, _tier in ((0, 'none', 'quick'), (2, 'ambisonics', 'quick'), (1, 'surround', 'thorough')):
+for _mt, _mtn, _tier in ((0, 'none', 'quick'), (2, 'ambisonics', 'quick'), (1, 'surround', 'off')):
   GROUPS.append(dict(name='ms_encode_budget_' + _mtn, tier=_tier, defines=['-DVERIF_MT=%d' % _mt], cls='P', tu='C05_ms_budget.c', entry='h_ms_budget', canary='real', expect_canaries=3, unwind=1, unwind_fn={'opus_multistream_encode_native': 22}, timeout=1500, mem_gb=16,
       replace_calls=['surround_analysis:verif_surround_analysis', 'rate_allocation:verif_rate_allocation'],
       functions=['opus_multistream_encode_native'],
